@@ -128,12 +128,13 @@ def case_real_compile(idx, rng, tier, res):
     except Exception as exc:
         V('compile_raised', repr(exc))
         return
-    defined, facts = {}, []
+    defined, facts, true_ent = {}, [], {}
     for m in g.modules:
         if results.get(m.name) != 'compiled':
             V('not_compiled', '%s is %s' % (m.name, results.get(m.name)))
             return
         oids, identity, compliance, ent = c01_oid.expected_summary(m)
+        true_ent[m.name] = ent
         defined[m.name] = set(tup(o) for o in oids)
         if identity:
             facts.append(('identity', identity, m.name))
@@ -152,9 +153,14 @@ def case_real_compile(idx, rng, tier, res):
         res.count('real_compile_builds')
         res.count('oids_cover_checked', check_index(doc, defined, facts, V, None, 'real build %d' % b))
         for m in g.modules:
-            ent = getattr(results[m.name], 'enterprise', None)
-            if ent and m.name not in doc.get('enterprise', {}).get(ent, []):
-                V('enterprise_missing', '%s not listed under enterprise[%s]' % (m.name, ent))
+            ents = true_ent[m.name]       # enterprise prefixes the text really defines OIDs under
+            listed = [e for e, mods in doc.get('enterprise', {}).items() if m.name in mods]
+            if ents and not any(e in ents for e in listed):
+                V('enterprise_missing', '%s defines OIDs below %s but is listed under enterprise %s' % (
+                    m.name, sorted(ents), listed))
+            if any(e not in ents for e in listed):
+                V('enterprise_foreign', '%s listed under enterprise %s, its enterprise prefixes are %s' % (
+                    m.name, listed, sorted(ents)))
         prev = text
     res.sig = harness.stable_hash(['real', g.signature()])
     res.nontrivial = len(g.modules) > 1
